@@ -711,6 +711,41 @@ def run_matrix(ego, env, sd, adapter, cases, settings, nproc=8, timeout=900, tag
         for i, o in zip(part, adapter.observe(r[0], r[1], r[2], len(part))):
             o["_file"] = p
             out[s.name][i] = o
+    # a process that ended before it reached some of its cases (one case stopped the whole file, e.g. a compile error):
+    # those cases run again in smaller files, finally alone, so that only the case responsible keeps the failure
+    for size in (5, 1):
+        todo = {}
+        for s in settings:
+            lost = [i for i, o in sorted(out[s.name].items()) if str(o.get("status", "")).startswith(("notrun", "died"))]
+            if lost:
+                todo[s.name] = (s, lost)
+        if not todo:
+            break
+        jobs, meta = [], []
+        for name, (s, lost) in todo.items():
+            for n in range(0, len(lost), size):
+                part = lost[n:n + size]
+                p = os.path.join(wd, "r%d_%s_%05d.ego" % (size, re.sub(r"[^A-Za-z0-9]+", "_", name), part[0]))
+                with open(p, "w") as f:
+                    f.write(adapter.text([cases[i] for i in part]))
+                jobs.append((s.argv(ego, p), s.stdin, wd, env))
+                meta.append((s, part, p))
+        if len(jobs) > 4000:
+            raise vf.NoVerdict("%d processes ended early (%s ...)" % (len(jobs), list(todo)[:3]))
+        res = vf.run_many(jobs, nproc=nproc, timeout=timeout)
+        stats["processes"] = stats.get("processes", 0) + len(jobs)
+        for (s, part, p), r in zip(meta, res):
+            if r[0] is None:
+                raise vf.NoVerdict("a generated program did not finish within %d s: %s" % (timeout, p))
+            for i, o in zip(part, adapter.observe(r[0], r[1], r[2], len(part))):
+                o["_file"] = p
+                if size == 1 and str(o.get("status", "")).startswith("notrun"):
+                    m = re.search(r"^Error: (.*)$", (r[2] or "") + "\n" + (r[1] or ""), re.M)
+                    o["status"] = "error" if m else "died(rc=%s)" % r[0]       # the program was rejected before it started
+                    o["msg"] = m.group(1) if m else (r[2] or r[1] or "").strip()[-300:]
+                    o["ec"] = err_class(o["msg"]) if m else ""
+                    o["err"] = o["msg"]
+                out[s.name][i] = o
     return out
 
 
@@ -749,3 +784,44 @@ def attribute(settings, diverging):
         return exact[0]
     common = sorted("%s=%s" % dv for dv, who in dims.items() if names <= who)
     return ("with " + "+".join(common) if common else "settings") + ":" + ",".join(sorted(names))
+
+
+# ------------------------------------------------------------------------------------------------ the real binary
+
+def build_ego(sd, timeout=3600):
+    """the `ego` binary of vf.REPO's current working tree (overlay build, as vf.build_ego).  The four checks of this group
+    need the same binary, so it is kept in vf.CACHE under a key made of the tree's HEAD and uncommitted changes (the
+    cache is only an accelerator: a miss builds)."""
+    import hashlib, shutil
+    out = os.path.join(sd, "ego")
+    if os.path.exists(out):
+        return out
+    key = None
+    try:
+        head = subprocess.run(["git", "-C", vf.REPO, "rev-parse", "HEAD"], capture_output=True, text=True, timeout=60).stdout.strip()
+        diff = subprocess.run(["git", "-C", vf.REPO, "status", "--porcelain"], capture_output=True, text=True, timeout=120).stdout
+        dtxt = subprocess.run(["git", "-C", vf.REPO, "diff", "HEAD"], capture_output=True, text=True, timeout=120).stdout
+        if head and not any(l.startswith("??") and l.rstrip().endswith(".go") for l in diff.splitlines()):
+            key = hashlib.sha256((head + "\n" + dtxt).encode()).hexdigest()[:24]
+    except Exception:
+        key = None
+    cached = os.path.join(vf.CACHE, "ego-%s" % key) if key else None
+    if cached and os.path.exists(cached):
+        shutil.copy(cached, out)
+        os.chmod(out, 0o755)
+        return out
+    ov = vf.make_overlay(sd, [])
+    vf.run([vf.GO, "build", "-overlay", ov, "-o", out, "-tags", "verif", "."], cwd=vf.REPO, env=vf.goenv(), timeout=timeout, check=True)
+    if cached:
+        os.makedirs(vf.CACHE, exist_ok=True)
+        tmp = cached + ".%d.tmp" % os.getpid()
+        shutil.copy(out, tmp)
+        os.replace(tmp, cached)
+        olds = sorted((f for f in os.listdir(vf.CACHE) if f.startswith("ego-") and ".tmp" not in f),
+                      key=lambda f: os.path.getmtime(os.path.join(vf.CACHE, f)))
+        for f in olds[:-6]:
+            try:
+                os.remove(os.path.join(vf.CACHE, f))
+            except OSError:
+                pass
+    return out
